@@ -129,7 +129,7 @@ def run(run):
                                                   dict(base=base_text, layout=text, extracted=extracted, base_results=sum(wantc.values()), layout_results=sum(got2.values())))
                     # very long physical lines (a whole query joined onto one line): same tokens, same results. The
                     # 12 shifted variants move every byte offset across token interiors; one variant exceeds 64 KiB.
-                    if long_done[pi] < 2 and q.cond is not None and len(q.from_items) == 1:
+                    if long_done[pi] < 2 and q.cond is not None and len(q.from_items) == 1 and not any("\n" in lx or "\r" in lx for lx in q.lexemes):
                         long_done[pi] += 1
                         k0, a0 = q.from_items[0]
                         for nconj, shifts in ((330, range(12)), (4800, (0,))):
